@@ -89,8 +89,12 @@ class SimConnection:
             pass
         self._closed = True
 
-    def _locked_wait(self, err: Exception, deadline: float | None) -> float:
-        """Returns the deadline to keep using; raises err when it has passed."""
+    _BACKOFF_MS = (1, 2, 5, 10, 15, 20, 25, 25, 25, 50, 50, 100)
+
+    def _locked_wait(self, err: Exception, state: dict) -> None:
+        """SQLite's busy handler in virtual time: sleep with its back-off steps
+        (woken early when another connection commits / rolls back / closes),
+        give the error to pynenc after BUSY_TIMEOUT_S."""
         sim = self._sim
         sim.bump("sql.busy_wait")
         th = sim.current_thread()
@@ -98,23 +102,25 @@ class SimConnection:
             # sequential engine: nobody else can release the lock
             sim.advance(BUSY_TIMEOUT_S)
             raise err
-        if deadline is None:
-            deadline = sim.now + BUSY_TIMEOUT_S
-        if sim.now >= deadline:
+        if "deadline" not in state:
+            state["deadline"] = sim.now + BUSY_TIMEOUT_S
+            state["n"] = 0
+        if sim.now >= state["deadline"]:
             sim.bump("sql.busy_timeout")
             raise err
+        step = self._BACKOFF_MS[min(state["n"], len(self._BACKOFF_MS) - 1)] / 1000.0
+        state["n"] += 1
         sim.log_event("db-busy", None)
-        sim.block(("db", self), deadline)
-        return deadline
+        sim.block(("db", self), min(state["deadline"], sim.now + step))
 
     def _run(self, fn: Any, *a: Any) -> Any:
-        deadline = None
+        state: dict = {}
         while True:
             try:
                 return fn(*a)
             except _real_sqlite3.OperationalError as e:
                 if "locked" in str(e) or "busy" in str(e):
-                    deadline = self._locked_wait(e, deadline)
+                    self._locked_wait(e, state)
                     continue
                 raise
 
